@@ -222,6 +222,22 @@ fn check(case: &Case, obs: &mut Obs) -> Verdict {
             if again != groups {
                 return Verdict::Fail(format!("TextDiff::grouped_ops({}) called twice gives {:?} and {:?}", n, groups, again));
             }
+            // the same text as caller-split lines (str::split('\n'): no terminators, a trailing empty item
+            // after a final line break) through diff_slices
+            if let (Some(o), Some(nw)) = (c.old.as_str(), c.new.as_str()) {
+                let (to, tn): (Vec<&str>, Vec<&str>) = (o.split('\n').collect(), nw.split('\n').collect());
+                match guard(|| {
+                    let d = cfg.diff_slices(&to, &tn);
+                    (d.ops().to_vec(), d.grouped_ops(*n))
+                }) {
+                    Ok((ops2, g2)) => {
+                        if let Err(m) = judge_groups(&ops2, *n, &g2) {
+                            return Verdict::Fail(format!("TextDiff::grouped_ops({}) over caller-split lines {:?} / {:?}: {}", n, to, tn, m));
+                        }
+                    }
+                    Err(p) => return Verdict::Fail(format!("TextDiff::grouped_ops over caller-split lines: {}", p)),
+                }
+            }
             obs.nontrivial = ops.iter().filter(|o| !is_eq(o)).count() >= 2;
             obs.class("real diff: TextDiff::grouped_ops");
             obs.class_if(groups.len() >= 2, ">= 2 groups");
@@ -310,6 +326,45 @@ fn strat(tier: Tier) -> BoxedStrategy<Case> {
     prop_oneof![
         6 => synth,
         2 => (seq_case(tier.pick(60, 150), true, 1), radius()).prop_map(|(case, n)| Case::Real { case, n }),
+        // real diffs with 64-300 ops: many scattered single edits, equal runs of 1-6 items between them
+        1 => (proptest::collection::vec((1usize..7, 0u8..3), 40..=150), 0usize..8, 0usize..8, radius(), 0u8..2).prop_map(|(segs, lead, trail, n, alg)| {
+            let mut old = vec![];
+            let mut new = vec![];
+            let mut next = 100u32;
+            let mut fresh = |k: usize, v: &mut Vec<u32>| {
+                for _ in 0..k {
+                    v.push(next);
+                    next += 1;
+                }
+            };
+            let shared = |k: usize, o: &mut Vec<u32>, nw: &mut Vec<u32>, base: &mut u32| {
+                for _ in 0..k {
+                    o.push(*base);
+                    nw.push(*base);
+                    *base += 1;
+                }
+            };
+            let mut base = 1_000_000u32;
+            shared(lead, &mut old, &mut new, &mut base);
+            for (run, kind) in segs {
+                match kind {
+                    0 => fresh(1, &mut old),
+                    1 => fresh(1, &mut new),
+                    _ => {
+                        fresh(1, &mut old);
+                        fresh(1, &mut new);
+                    }
+                }
+                shared(run, &mut old, &mut new, &mut base);
+            }
+            // the last shared run is `trail` items long
+            for _ in 0..trail {
+                old.push(base);
+                new.push(base);
+                base += 1;
+            }
+            Case::Real { case: SeqCase::full(alg, old, new), n }
+        }),
         1 => (prop_oneof![4 => line_case(30, false), 4 => text_case_mix(120), 1 => big_line_case(130)], radius()).prop_map(|(case, n)| Case::Text { case, n }),
     ]
     .boxed()
@@ -370,7 +425,7 @@ impl Prop for C12 {
     type Case = Case;
     const ID: &'static str = "C12";
     fn rule() -> String {
-        "cases = Ops(valid alternating op list with arbitrary run lengths biased to {n, 2n, 2n+1, 2n+2, n+1, 1}, optional leading/trailing Equal, non-zero start offsets; n in 0..6 | 10 | 1000) | Real(sequence diff through Capture::into_grouped_ops and group_diff_ops) | Text(TextDiff::grouped_ops as a call history on one diff object: grouped_ops(other radius), a unified diff with a third radius, grouped_ops(n) twice, each answer judged on its own); enumeration of all alternating lists with few changes, Equal lengths 1..=5, n in 0..=2. Oracle: flattened non-Equal ops == input non-Equal ops; no all-Equal group; edge context <= n and interior runs <= 2n; equality with a reference grouping written from the statement (modulo zero-length Equal ops, which the pinned code emits for n=0 and the statement neither requires nor forbids). Non-trivial = >= 2 changes and (synthetic) an Equal run of length n, 2n or 2n+1; distinct = distinct serialized case.".into()
+        "cases = Ops(valid alternating op list with arbitrary run lengths biased to {n, 2n, 2n+1, 2n+2, n+1, 1}, optional leading/trailing Equal, non-zero start offsets; n in 0..6 | 10 | 1000) | Real(sequence diff through Capture::into_grouped_ops and group_diff_ops; also diffs with 64-300 ops)  | Text(TextDiff::grouped_ops as a call history on one diff object: grouped_ops(other radius), a unified diff with a third radius, grouped_ops(n) twice, each answer judged on its own; the same texts also as caller-split lines with a trailing empty item through diff_slices); enumeration of all alternating lists with few changes, Equal lengths 1..=5, n in 0..=2. Oracle: flattened non-Equal ops == input non-Equal ops; no all-Equal group; edge context <= n and interior runs <= 2n; equality with a reference grouping written from the statement (modulo zero-length Equal ops, which the pinned code emits for n=0 and the statement neither requires nor forbids). Non-trivial = >= 2 changes and (synthetic) an Equal run of length n, 2n or 2n+1; distinct = distinct serialized case.".into()
     }
     fn assumptions() -> Vec<String> {
         vec!["input lists are alternating (the domain the property quantifies over); zero-length Equal ops in the output are tolerated".into()]
